@@ -548,18 +548,39 @@ func c02R2(e *Engine) {
 	for i := len(apCtx) - 1; i >= 0; i-- {
 		levels = append(levels, level{apCtx[i].call.Block(), apCtx[:i]})
 	}
-	for _, lv := range levels {
+	// conditions decided before the loop is entered guard the whole search, not the emission of one item (an early
+	// return for an empty key list, say): at the level of the search function only conditions computed inside the loop
+	// that contains the emission count
+	inLoop := func(blk *ssa.BasicBlock, v ssa.Value) bool {
+		in, ok := v.(ssa.Instruction)
+		if !ok || in.Block() == nil || in.Parent() != blk.Parent() {
+			return true
+		}
+		for _, body := range naturalLoops(blk.Parent()) {
+			if body[blk] {
+				return body[in.Block()]
+			}
+		}
+		return true
+	}
+	for li, lv := range levels {
 		for _, cd := range condsAt(lv.blk) {
 			cd = normCond(cd)
 			if isIndexLoopCond(cd.V) {
 				continue
 			}
+			if li == len(levels)-1 && !inLoop(lv.blk, cd.V) {
+				continue
+			}
 			v, _ := resolveParam(cd.V, lv.ctx)
 			cd = normCond(Cond{v, cd.Val})
-			if _, isPhi := cd.V.(*ssa.Phi); isPhi && len(lv.ctx) < len(apCtx) {
+			if _, isPhi := cd.V.(*ssa.Phi); isPhi {
 				// a loop-carried "more" flag of a cursor-driven loop (k, more := next(); more; k, more = next())
 				allStep := true
 				for _, src := range phiSources(cd.V.(*ssa.Phi)) {
+					if b, isK := constBool(src); isK && b == cd.Val {
+						continue // "found" defaults to true when no index is read
+					}
 					ex, isEx := src.(*ssa.Extract)
 					if !isEx {
 						allStep = false
@@ -573,6 +594,9 @@ func c02R2(e *Engine) {
 				if allStep {
 					continue
 				}
+			}
+			if f, _ := loadedFieldDeep(cd.V); f != nil && f.Name() == "started" && cd.Val {
+				continue // the start position has been passed (the position step inlined into the loop)
 			}
 			if ex, ok := cd.V.(*ssa.Extract); ok {
 				if _, isNext := ex.Tuple.(*ssa.Next); isNext {
@@ -1023,8 +1047,24 @@ func c02R8(e *Engine) {
 		}
 		for _, r := range returnsOf(sd) {
 			construct := "core.Table.SearchData:returns-after-the-search"
+			// … except when the key list to walk is empty: then there is nothing to examine
+			emptyList := false
+			for _, cd := range condsAt(r.Block()) {
+				cd = normCond(cd)
+				b, ok := cd.V.(*ssa.BinOp)
+				if !ok {
+					continue
+				}
+				if n, isK := constInt(b.Y); isK && n == 0 && ((b.Op == token.EQL && cd.Val) || (b.Op == token.NEQ && !cd.Val) || (b.Op == token.GTR && !cd.Val)) {
+					if _, isLen := lenOf(b.X); isLen {
+						emptyList = true
+					}
+				}
+			}
 			if h.Dominates(r.Block()) {
 				e.pass("R8", construct, e.ipos(r), "the return is dominated by the head of the search loop")
+			} else if emptyList {
+				e.pass("R8", construct, e.ipos(r), "the return before the loop is taken only when the key list is empty")
 			} else {
 				e.fail("R8", construct, e.ipos(r), "SearchData can return without entering the loop over the key list: the items the request selects are not examined, the page comes back empty and complete (no LastEvaluatedKey) – matching items are lost")
 			}
